@@ -756,6 +756,24 @@ func (v *Verifier) axiomsFor(r *Run, terms []*Term, extra []*Term) []*Term {
 			Forall([]*Term{a, b, cc}, Implies(And(lt(a, b), lt(b, cc)), lt(a, cc))),
 			Forall([]*Term{a, b}, Or(App("=", SBool, a, b), lt(a, b), lt(b, a))))
 	}
+	// heap closure: every reference stored in the INITIAL heap refers to an object that already exists
+	// (it is not above the initial allocation watermark)
+	for _, n := range sortedKeys(c.vars) {
+		if !strings.HasPrefix(n, "H0!") || !refComps[strings.TrimPrefix(n, "H0!")] {
+			continue
+		}
+		srt := c.vars[n]
+		hv := Var(n, srt)
+		top0 := Var("alloc0", SInt)
+		if srt == ArrSort(SInt, SInt) {
+			r := Bound("ax.r", SInt)
+			out = append(out, Forall([]*Term{r}, And(Ge(App("select", SInt, hv, r), IntLit(0)), Le(App("select", SInt, hv, r), top0))))
+		} else if srt == ArrSort(SInt, ArrSort(SInt, SInt)) {
+			r, i := Bound("ax.r", SInt), Bound("ax.i", SInt)
+			cell := App("select", SInt, App("select", ArrSort(SInt, SInt), hv, r), i)
+			out = append(out, Forall([]*Term{r, i}, And(Ge(cell, IntLit(0)), Le(cell, top0))))
+		}
+	}
 	// addresses of fields and slice elements are never nil
 	for _, n := range sortedKeys(c.ufs) {
 		if strings.HasPrefix(n, "elemptr!") || strings.HasPrefix(n, "fieldptr!") {
